@@ -279,6 +279,7 @@ def text_to_date(text):
 
 
 def parse_date(date):
+    date = single(date)  # a date that arrives as a one-cell range or one-item array is that date
     if isinstance(date, error.XLError):
         return date
     if isinstance(date, datetime.datetime):
